@@ -63,7 +63,7 @@ PushBlobEffect(op) ==
      ELSE /\ nsess' = nsess + 1
           /\ sess' = Upd(sess, Handle(nsess + 1), [NoSess EXCEPT !.repo = op.repo])
   /\ resp' = Ok(201)
-  /\ UNCHANGED <<env, base, man, tag>>
+  /\ UNCHANGED <<env, base, man, tag>> /\ ClockStep
 
 ManPutOp(r, ref, c, ct, lk, dp) ==
   [op |-> "ManPut", repo |-> r, ref |-> ref, ctype |-> ct, ctvar |-> "", body |-> c, lenKnown |-> lk, dparam |-> dp]
@@ -229,6 +229,8 @@ FamOps(f) ==
     [] f = "sessbad"  -> FSessBadReal
     [] f = "putwrong" -> FPutWrongReal
     [] f = "putwrongalg" -> FPutWrongAlg
+    [] f = "uppostnew" -> {UpPostOp(r, "", "", "", "", NoChunk) : r \in GR}
+    [] f = "tick"     -> {[op |-> "Tick", ni |-> n] : n \in {1300, 2400, 3700}}
     [] f = "upget"    -> FUpGet
     [] f = "updel"    -> FUpDel
     [] f = "gc"       -> {[op |-> "GC", repo |-> r] : r \in GR}
@@ -274,13 +276,28 @@ Weights ==
                                "gcpass", "gcpass", "age", "age", "mkcorrupt">>
     [] Profile = "sess" -> <<"uppost", "uppost", "uppatch", "uppatch", "uppatch", "upput", "upput", "sessbad", "sessbad",
                              "putwrong", "putwrongalg", "upget", "updel", "restart", "blobget">>
+    \* sessions under a small limit and the grace period: eviction and expiry at any point (C08)
+    [] Profile = "sessx" -> <<"uppostnew", "uppostnew", "uppostnew", "uppost", "uppatch", "uppatch", "uppatch", "upput", "upget", "upget",
+                              "updel", "sessbad", "tick", "tick", "tick", "restart", "pushblob">>
     [] Profile = "upload" -> <<"pushblob", "repushblob", "uppost", "uppost", "uppatch", "uppatch", "uppatch", "upput", "upput", "sessbad",
                                "putwrong", "putwrongalg", "putwrongalg", "manput", "manput", "manputbad", "blobget", "manget", "blobdel">>
     [] OTHER -> <<"pushblob", "manput", "mandel">>
 
 Cands(f) == FamOps(f)
 
-GenDo(op) == IF op.op = "PushBlob" THEN PushBlobEffect(op) ELSE Do(op)
+\* the generator's own idea of a count prune after a plain new session (the validator binds evictions to what was observed)
+GenUpPostNew(op) ==
+  LET h == Handle(nsess + 1)
+      s1 == Upd(sess, h, [NoSess EXCEPT !.repo = op.repo, !.alg = "sha256", !.open = TRUE, !.used = clk.now])
+      openR == {x \in DOMAIN s1 : s1[x].open /\ s1[x].repo = op.repo}
+      k == IF UploadMax > 0 /\ Cardinality(openR) > UploadMax THEN Cardinality(openR) - SessMin ELSE 0
+      ev == {x \in openR : Cardinality({y \in openR : s1[y].used < s1[x].used}) < k}
+  IN /\ nsess' = nsess + 1
+     /\ sess' = [x \in DOMAIN s1 |-> IF x \in ev THEN [s1[x] EXCEPT !.open = FALSE] ELSE s1[x]]
+     /\ resp' = [Ok(202) EXCEPT !.sess = h, !.off = 0]
+     /\ UNCHANGED <<env, base, blob, man, tag, young>> /\ ClockStep
+PlainNew(op) == op.op = "UpPost" /\ op.dig = "" /\ op.mount = "" /\ op.alg = "" /\ CanPush /\ op.repo \in Repos
+GenDo(op) == IF op.op = "PushBlob" THEN PushBlobEffect(op) ELSE IF PlainNew(op) THEN GenUpPostNew(op) ELSE Do(op)
 
 MCInit ==
   /\ env = [cat |-> CatFile, cfg |-> CatFile.cfg, store |-> CatFile.cfg.store, trace |-> "mc"]
